@@ -112,7 +112,7 @@ Apply(c, v, f) ==
     [] v = "minus1" -> c - 1
     [] v = "plus1" -> c + 1
     [] v = "np2" -> IF c = 3 THEN 5 ELSE 3
-    [] v = "huge" -> IF f \in CapFields THEN 1024 ELSE IF f \in PathFields THEN 70 ELSE c + 100
+    [] v = "huge" -> IF f \in CapFields THEN 1024 ELSE IF f \in PathFields THEN 31 ELSE c + 100   \* 31 siblings: cap height + path length just above the two-adicity (32), below every "absurdly long" cut-off
     [] OTHER -> c
 
 (* the adversary's catalogue *)
